@@ -15,6 +15,7 @@ KEYSETS = [
     (bytes(range(1, 65)), bytes(range(1, 64)) + b'\xff'),
     (b'RandomX example key\x00', b'RandomX example key'),
     (b'z' * 200, b'z' * 201),
+    (b'rcp key 1186', b'rcp key 2708'),         # 193 and 281 IMUL_RCP in the eight programs: re-keying K1 -> K2 makes the cache's reciprocal table grow beyond its capacity
 ]
 INPUTSETS = [
     (b'This is a test', b'Lorem ipsum dolor sit amet'),
